@@ -1,5 +1,6 @@
 import Driver.CscIO
 import ClarabelModel.CscMath
+import ClarabelModel.Cones.Nonsym
 
 open Clarabel Driver
 
@@ -63,6 +64,15 @@ def vec2 (kv : KV) (f : Array Float → Array Float → String) : String :=
   | some x, some y => f x y
   | _, _ => "bad-request"
 
+/-- the closures the `scalarop` / `scalarop_from` channels pass (same table in the harness) -/
+def scalarOpOf (op : Nat) : Float → Float :=
+  match op with
+  | 0 => fun v => v + 1.5
+  | 1 => fun v => v * v
+  | 2 => fun v => 0.0 - v
+  | 3 => fun _ => 2.0
+  | _ => fun v => v / 3.0
+
 def handleVec (ch : String) (kv : KV) : String :=
   match ch with
   | "vec.dot" => vec2 kv (fun x y => fmtVal (Vec.dot x y))
@@ -71,8 +81,31 @@ def handleVec (ch : String) (kv : KV) : String :=
   | "vec.norm" => vec1 kv (fun x => fmtVal (Vec.norm x))
   | "vec.norm_inf" => vec1 kv (fun x => fmtVal (Vec.normInf x))
   | "vec.norm_one" => vec1 kv (fun x => fmtVal (Vec.normOne x))
-  | "vec.norm_scaled" => vec2 kv (fun x y => fmtVal (Vec.normScaled x y))
-  | "vec.norm_inf_scaled" => vec2 kv (fun x y => fmtVal (Vec.normInfScaled x y))
+  | "vec.norm_scaled" => vec2 kv (fun x y => fmtM fmtVal (Vec.normScaledE x y))
+  | "vec.norm_inf_scaled" => vec2 kv (fun x y => fmtM fmtVal (Vec.normInfScaledE x y))
+  | "vec.norm_one_scaled" => vec2 kv (fun x y => fmtVal (Vec.normOneScaled x y))
+  | "vec.norm_inf_diff" => vec2 kv (fun x y => fmtVal (Vec.normInfDiff x y))
+  | "vec.dist" => vec2 kv (fun x y => fmtVal (Vec.dist x y))
+  | "scalar.logsafe" => vec1 kv (fun x => fmtVec "x" (x.map Nonsym.logsafe))
+  | "scalar.clip" =>
+    match kv.float "v", kv.float "lo", kv.float "hi" with
+    | some v, some lo, some hi => fmtVal (Vec.clip v lo hi)
+    | _, _, _ => "bad-request"
+  | "vec.is_finite" => vec1 kv (fun x => fmtBool (Vec.isFinite x))
+  | "vec.normalize" => vec1 kv (fun x => let r := Vec.normalize x; fmtVal r.1 ++ " " ++ fmtVec "x" r.2)
+  | "vec.copy_from" => vec2 kv (fun x y => fmtM (fmtVec "x") (Vec.copyFrom x y))
+  | "vec.set" =>
+    match kv.floats "x", kv.float "c" with
+    | some x, some c => fmtVec "x" (Vec.setAll x c)
+    | _, _ => "bad-request"
+  | "vec.scalarop_from" =>
+    match kv.floats "x", kv.floats "y", kv.nat "op" with
+    | some x, some y, some op => fmtVec "x" (Vec.scalaropFrom x (scalarOpOf op) y)
+    | _, _, _ => "bad-request"
+  | "vec.scalarop" =>
+    match kv.floats "x", kv.nat "op" with
+    | some x, some op => fmtVec "x" (Vec.scalarop x (scalarOpOf op))
+    | _, _ => "bad-request"
   | "vec.mean" => vec1 kv (fun x => fmtVal (Vec.mean x))
   | "vec.minimum" => vec1 kv (fun x => fmtVal ((Vec.minimum? x).getD posInf))
   | "vec.maximum" => vec1 kv (fun x => fmtVal ((Vec.maximum? x).getD negInf))
@@ -80,7 +113,7 @@ def handleVec (ch : String) (kv : KV) : String :=
   | "vec.recip" => vec1 kv (fun x => fmtVec "x" (Vec.recip x))
   | "vec.sqrt" => vec1 kv (fun x => fmtVec "x" (Vec.vsqrt x))
   | "vec.rsqrt" => vec1 kv (fun x => fmtVec "x" (Vec.rsqrt x))
-  | "vec.hadamard" => vec2 kv (fun x y => fmtVec "x" (Vec.hadamard x y))
+  | "vec.hadamard" => vec2 kv (fun x y => fmtVec "x" (Vec.hadamardFull x y))
   | "vec.scale" =>
     match kv.floats "x", kv.float "c" with
     | some x, some c => fmtVec "x" (Vec.scale x c)
@@ -91,23 +124,24 @@ def handleVec (ch : String) (kv : KV) : String :=
     | _, _ => "bad-request"
   | "vec.clip" =>
     match kv.floats "x", kv.float "lo", kv.float "hi" with
-    | some x, some lo, some hi => fmtVec "x" (x.map (fun v => Vec.clip v lo hi))
+    | some x, some lo, some hi => fmtVec "x" (Vec.vclip x lo hi)
     | _, _, _ => "bad-request"
   | "vec.select" =>
     match kv.floats "x", kv.bools "idx" with
-    | some x, some idx => fmtVec "x" (Vec.select x idx)
+    | some x, some idx => fmtM (fmtVec "x") (Vec.selectE x idx)
     | _, _ => "bad-request"
   | "vec.axpby" =>
     match kv.float "a", kv.floats "x", kv.float "b", kv.floats "y" with
-    | some a, some x, some b, some y => fmtVec "y" (Vec.axpby a x b y)
+    | some a, some x, some b, some y => fmtM (fmtVec "y") (Vec.axpbyE a x b y)
     | _, _, _, _ => "bad-request"
   | "vec.waxpby" =>
     match kv.float "a", kv.floats "x", kv.float "b", kv.floats "y" with
-    | some a, some x, some b, some y => fmtVec "w" (Vec.waxpby a x b y)
+    | some a, some x, some b, some y =>
+      fmtM (fmtVec "w") (Vec.waxpbyE ((kv.nat "wlen").getD x.size) a x b y)
     | _, _, _, _ => "bad-request"
   | "vec.dot_shifted" =>
     match kv.floats "z", kv.floats "s", kv.floats "dz", kv.floats "ds", kv.float "a" with
-    | some z, some s, some dz, some ds, some a => fmtVal (Vec.dotShifted z s dz ds a)
+    | some z, some s, some dz, some ds, some a => fmtM fmtVal (Vec.dotShiftedE z s dz ds a)
     | _, _, _, _, _ => "bad-request"
   | _ => "unknown-channel"
 
@@ -209,6 +243,14 @@ def handleC16 (ch : String) (kv : KV) : String :=
       | .ok () => "ok"
       | .error e => "err:" ++ e.toString
     | _, _ => "bad-request"
+  | "csc.new" =>
+    withA kv (fun A => fmtM fmtCsc (Csc.new A.m A.n A.colptr A.rowval A.nzval))
+  | "csc.eq" =>
+    match kv.csc "a", kv.csc "b" with
+    | some A, some B => fmtBool (A.isEqual B)
+    | _, _ => "bad-request"
+  | "csc.shape" =>
+    withA kv (fun A => fmtM (fun nnz => s!"nrows={A.m} ncols={A.n} sq={fmtBool A.isSquare} nnz={nnz}") A.nnzE)
   | "csc.get_entry" =>
     match kv.csc "", kv.nat "row", kv.nat "col" with
     | some A, some r, some c => fmtM (fun o => match o with
